@@ -13,10 +13,10 @@ import vlib
 from vlib import Infra
 
 
-def tcfg(name):
+def tcfg(name, nblk=2400):
     p = os.path.join(vlib.BUILD, name + ".cfg")
     with open(p, "w") as f:
-        f.write("SPECIFICATION TSpec\nCONSTANTS\n  Threads = {1,2,3,4,5,6,7,8,9,10,11,12}\n  NBlk = 400\n  Cap = 224\n  MaxOps = 0\n  NRes = 16\n  SharedScratch = FALSE\n  DrainOnExit = TRUE\n"
+        f.write("SPECIFICATION TSpec\nCONSTANTS\n  Threads = {1,2,3,4,5,6,7,8,9,10,11,12}\n  NBlk = %d\n" % nblk + "  Cap = 224\n  MaxOps = 0\n  NRes = 16\n  SharedScratch = FALSE\n  DrainOnExit = TRUE\n"
                 "INVARIANTS RaceFree HeapSoundT\nPOSTCONDITION Accepted\nCHECK_DEADLOCK FALSE\n")
     return p
 
@@ -69,6 +69,8 @@ def run(v, tier, seed, replay):
                     return None, None, p
                 return [l for l in lines if l.startswith("{")], sorted(l for l in lines if l.startswith("RES")), p
             ev, res, p = one_run()
+            if ev is None and p.returncode == 3:
+                raise Infra("thread driver ran out of its own resources: %s" % p.stderr[-300:])
             if ev is None:
                 v.violation("threads/crash/n=%d" % n, "threaded run died rc=%s: %s" % (p.returncode, p.stderr[-800:]), {"args": args})
                 continue
@@ -89,11 +91,36 @@ def run(v, tier, seed, replay):
                 if res2 is not None and any(a != b for a, b in zip(res2, ref)):
                     kind = bad[0][0].split()[3] if bad else "count"
                     v.violation("threads/result/%s" % kind, "n=%d seed=%d: threaded result differs from the single-thread run: %s" % (n, sd, bad[:2]), {"args": args, "diff": bad[:10]})
+            # the same programs with no recording at all (nothing serialises the threads), the all-entry-points block repeated:
+            # every result must equal the single-thread run's (scratch space shared between threads shows as wrong values)
+            reps = "4" if tier == "quick" else "12"
+            pr3 = vlib.sh([exe, "ref"] + args + [reps], timeout=600)
+            ref3 = sorted(l for l in pr3.stdout.splitlines() if l.startswith("RES"))
+            for attempt in range(2 if tier == "quick" else 4):
+                pf = vlib.sh([exe, "race"] + args + [reps], timeout=600)
+                got3 = sorted(l for l in pf.stdout.splitlines() if l.startswith("RES"))
+                if pf.returncode != 0 or "DONE" not in pf.stdout:
+                    v.violation("threads/crash/free-running/n=%d" % n, "free-running threaded run died rc=%s: %s" % (pf.returncode, pf.stderr[-600:]), {"args": args + [reps]})
+                    break
+                bad3 = []
+                for a, b in zip(got3, ref3):
+                    if a == b:
+                        continue
+                    pa, pb = a.split(), b.split()
+                    if pa[:4] == pb[:4] and pa[3] == "exp" and len(pa) == 6 and all(abs(float(x) - float(y)) <= 1e-9 * max(1.0, abs(float(y))) for x, y in zip(pa[4:], pb[4:])):
+                        continue
+                    bad3.append((a, b))
+                nres += len(got3)
+                if bad3 or len(got3) != len(ref3):
+                    kind = bad3[0][0].split()[3] if bad3 else "count"
+                    v.violation("threads/result/free-running/%s" % kind, "n=%d seed=%d: %d results of the free-running threaded run differ from the single-thread run: %s" % (n, sd, len(bad3), bad3[:2]), {"args": args + [reps], "diff": bad3[:10]})
+                    break
             # trace validation
             path = os.path.join(vlib.BUILD, "thtrace_%d_%d_%d.ndjson" % (n, sd % 100000, os.getpid()))
             with open(path, "w") as f:
                 f.write("\n".join(ev) + "\n")
-            r = vlib.tlc("ThreadsTrace", tcfg("ThreadsTrace_run"), workers=1, timeout=900, env={"TRACE": path}, coverage=False, xmx="4g")
+            maxb = max([json.loads(x).get("b", 0) for x in ev if '"b":' in x] + [8])      # block ids are handed out smallest-free-first
+            r = vlib.tlc("ThreadsTrace", tcfg("ThreadsTrace_run_%d" % os.getpid(), maxb + 2), workers=1, timeout=900, env={"TRACE": path}, coverage=False, xmx="4g")
             os.remove(path)
             ok = not (("Postcondition Accepted" in r.out and "is false" in r.out) or r.violated or r.error)
             if ok:
